@@ -210,13 +210,18 @@ func tblsCase(rng *hx.Rng, w *hx.Writer, s *tblsSetup, ents []sigEnt, mode strin
 		sigs[i] = append([]byte{}, e.bytes...)
 		sv[i] = hx.B(e.bytes)
 	}
-	impl := hx.Catch(func() string {
-		r, err := tbls.Recover(Bn, s.pub, s.msg, sigs, s.t, s.n)
+	recoverOnce := func() string {
+		cp := make([][]byte, len(sigs))
+		for i := range sigs {
+			cp[i] = append([]byte{}, sigs[i]...)
+		}
+		r, err := tbls.Recover(Bn, s.pub, append([]byte{}, s.msg...), cp, s.t, s.n)
 		if err != nil {
 			return hx.E
 		}
 		return hx.B(r)
-	})
+	}
+	impl := hx.Catch(recoverOnce)
 	want := g1Bytes(new(big.Int).Mod(new(big.Int).Mul(s.coeffs[0], s.hm), BnQ))
 	oracle := "ok"
 	tags := []string{"recover"}
@@ -257,7 +262,7 @@ func tblsCase(rng *hx.Rng, w *hx.Writer, s *tblsSetup, ents []sigEnt, mode strin
 	}
 	w.Put(hx.Case{Entry: "tbls", Op: 1,
 		Args: hx.L(hx.Z(BnQ), hx.Zi(1), bigsVal(s.coeffs), hx.Z(s.hm), hx.L(tbl...), hx.L(sv...), hx.Zi(s.t), hx.Zi(s.n)),
-		Impl: impl, Oracle: oracle, Tags: tags})
+		Impl: impl, Oracle: oracle, Tags: tags, Re: recoverOnce})
 }
 
 type panicErr struct{}
@@ -463,20 +468,21 @@ func genTbls(rng *hx.Rng, tier string, w *hx.Writer, mode string) error {
 				i = 256 + rng.Intn(1000)
 			}
 			xi := refEval(s.coeffs, i, BnQ)
-			impl := hx.Catch(func() string {
-				b, err := tbls.Sign(Bn, &share.PriShare{I: i, V: Sc(Bn.G2(), xi, BnQ)}, s.msg)
+			signOnce := func() string {
+				b, err := tbls.Sign(Bn, &share.PriShare{I: i, V: Sc(Bn.G2(), xi, BnQ)}, append([]byte{}, s.msg...))
 				if err != nil {
 					return hx.E
 				}
 				return hx.L(hx.B(b[:2]), hx.B(b[2:]))
-			})
+			}
+			impl := hx.Catch(signOnce)
 			oracle := "ok"
 			want := hx.L(hx.B([]byte{byte(i >> 8), byte(i)}), hx.B(g1Bytes(new(big.Int).Mod(new(big.Int).Mul(xi, s.hm), BnQ))))
 			if impl != want {
 				oracle = hx.Fail("sign-layout", "tbls.Sign is not index(2 bytes, big-endian) || x_i*H(m)")
 			}
 			w.Put(hx.Case{Entry: "tbls", Op: 4, Args: hx.L(hx.Z(BnQ), hx.Zi(i), hx.Z(xi), hx.Z(s.hm)), Impl: impl, Oracle: oracle,
-				Tags: []string{"sign", "nt"}})
+				Tags: []string{"sign", "nt"}, Re: signOnce})
 		}
 	}
 	return nil
@@ -484,12 +490,13 @@ func genTbls(rng *hx.Rng, tier string, w *hx.Writer, mode string) error {
 
 func tblsVerifyCase(rng *hx.Rng, w *hx.Writer, s *tblsSetup, e sigEnt, msg []byte, pub *share.PubPoly, coeffs []*big.Int, tag string) {
 	hm := keccakModQ(msg)
-	impl := hx.Catch(func() string {
-		if err := tbls.Verify(Bn, pub, msg, append([]byte{}, e.bytes...)); err != nil {
+	verifyOnce := func() string {
+		if err := tbls.Verify(Bn, pub, append([]byte{}, msg...), append([]byte{}, e.bytes...)); err != nil {
 			return hx.E
 		}
 		return "z1"
-	})
+	}
+	impl := hx.Catch(verifyOnce)
 	want := hx.E
 	if e.idx >= 0 && e.dlog != nil {
 		v := refEval(coeffs, e.idx, BnQ)
@@ -511,5 +518,30 @@ func tblsVerifyCase(rng *hx.Rng, w *hx.Writer, s *tblsSetup, e sigEnt, msg []byt
 		}
 	}
 	w.Put(hx.Case{Entry: "tbls", Op: 3, Args: hx.L(hx.Z(BnQ), bigsVal(coeffs), hx.Z(hm), hx.L(tbl...), hx.B(e.bytes)),
-		Impl: impl, Oracle: oracle, Tags: []string{tag, "k:" + e.kind, "nt"}})
+		Impl: impl, Oracle: oracle, Tags: []string{tag, "k:" + e.kind, "nt"}, Re: verifyOnce})
+	// the caller reuses its message buffer: a valid share of m, then the buffer is changed in place to
+	// another message of the same length - the share is not one of THAT message - and changed back
+	if want == "z1" && len(msg) > 0 {
+		seq := hx.Catch(func() string {
+			buf := append([]byte{}, msg...)
+			r := make([]string, 0, 3)
+			cls := func() string {
+				if tbls.Verify(Bn, pub, buf, append([]byte{}, e.bytes...)) != nil {
+					return "z0"
+				}
+				return "z1"
+			}
+			r = append(r, cls())
+			buf[len(buf)/2] ^= 0x40
+			r = append(r, cls())
+			buf[len(buf)/2] ^= 0x40
+			r = append(r, cls())
+			return hx.L(r...)
+		})
+		o2 := "ok"
+		if seq != hx.L("z1", "z0", "z1") {
+			o2 = hx.Fail("share-verify-wrong", "a share of message m: verify(m), change the caller's buffer in place to m', verify(m'), change it back, verify(m) gave "+seq+" instead of accept, reject, accept")
+		}
+		w.Put(hx.Case{Entry: "-", Op: 0, Args: hx.L(hx.B(msg)), Impl: seq, Oracle: o2, Tags: []string{"verify-buffer-reused", "nt"}})
+	}
 }
